@@ -70,7 +70,23 @@ def generate(seed: int, tier: str = "quick") -> dict:
     tr = common.draw_transport(r_sch, wire_len, spans, kinds=("file", "file", "socket"))
     if tr["kind"] == "socket":
         cfg["bufsize"] = r_sch.choice(sched.BUFSIZES)
-    cfg["handler_kind"] = r_cfg.choice(("function", "function", "method", "falsy_callable", "raise_once"))
+    cfg["handler_kind"] = r_cfg.choice(("function", "function", "method", "method", "falsy_callable", "raise_once", "returns_value"))
+    if constructive and r_cfg.random() < 0.2 and frames:
+        # pauses longer than the socket timeout, placed exactly BETWEEN frames; the application asks
+        # again after each end of stream.  Frame boundaries - and therefore the per-frame verdicts -
+        # are untouched, so the constructive oracle still applies.
+        sizes = [len(link.frame_bytes(f)) for f in frames]
+        segs, t = [], 0.0
+        for n_bytes in sizes:
+            if n_bytes == 0:
+                continue
+            if segs and r_sch.random() < 0.4:
+                t = round(t + r_sch.choice((1.5, 3.0, 4.5)), 6)
+            elif segs and r_sch.random() < 0.5:
+                t = round(t + 0.01, 6)
+            segs.append([t, n_bytes])
+        tr = {"kind": "socket", "segments": segs, "timeout": 1.0, "end": r_sch.choice(("close", "timeout")), "host_delay": 0.0, "rereads": 16, "redrive_all": True, "stress": "boundary_stall"}
+        cfg["bufsize"] = r_sch.choice((64, 1024, 4096))
     if r_cfg.random() < 0.5:
         # another reader with another policy / handler is alive while this one is read
         cfg["decoy"] = True
@@ -143,6 +159,9 @@ def _run(scn, res=None):
         c.hit("logger_records", len(cap.records))
         c.hit(tr["kind"] + "_runs")
         c.hit("handler_kind_" + str(cfg0.get("handler_kind")))
+        if tr.get("stress") == "boundary_stall":
+            c.hit("boundary_stall_runs")
+            c.hit("fault_stall", getattr(log.transport, "midstream_timeouts", 0))
         if cfg0.get("decoy"):
             c.hit("decoy_reader_alive")
         res.log((wire, sorted(cfg0.items()), log.events), bool(errors) and bool(log.items))
